@@ -45,6 +45,22 @@ def check(run):
             tdef = [v for n in ar.all_nodes() if n['k'] == 'decl' for v in n['vars'] if v.get('name') == 't']
             okt = bool(tdef) and 'now()' in q.render(ar, tdef[0]['init']) and any(x['k'] == 'int' and x['v'] == 1 for x in walk(tdef[0]['init'])) and any(('microseconds' in ar.ty(x) or 'ratio<1, 1000000>' in ar.ty(x)) for x in walk(tdef[0]['init']) if x['k'] in ('construct', 'cast'))
             run.check(okt, 'R4', 'literal-delay', '%s<%s>' % (ar.norm, tag), ar.loc(ins), 'literal completion time is not now() + 1 microsecond', 'now() + microseconds(1)')
+        # the literal test is decided by the address parse alone
+        parses = [c for c in ar.calls() if q.callee_name(c) in ('boost::asio::ip::make_address_v4', 'boost::asio::ip::make_address_v6', 'boost::asio::ip::make_address')]
+        for ins in inserts:
+            other = []
+            for n in ar.all_nodes():
+                if n['k'] == 'ref' and n.get('name') == 'ec' and n.get('dk') == 'local':
+                    kind, site, meth, _c, _p = q.classify_access(ar, n)
+                    if kind in ('assign', 'compound') or (kind == 'method' and meth in ('assign', 'clear')) or (kind == 'refarg' and site not in parses and not any(site is x for x in parses)):
+                        if q.precedes(ar, site, ins) or (ar.cfg._reaches(ar.cfg.node_block(site), ar.cfg.node_block(ins)) and not ar.cfg._reaches(ar.cfg.node_block(ins), ar.cfg.node_block(site))):
+                            other.append(site)
+            v4 = [c for c in parses if q.callee_name(c).endswith('make_address_v4')]
+            v6 = [c for c in parses if q.callee_name(c).endswith('make_address_v6')]
+            okp = bool(v4) and bool(v6) and all(q.precedes(ar, c, ins) for c in v4) and all(any(q.render(ar, a) == 'ec' and p for a, p in q.guards_at(ar, c)) and len(q.guards_at(ar, c)) == 1 for c in v6)
+            run.check(okp and not other, 'R5', 'literal-decided-by-parse', '%s<%s>' % (ar.norm, tag), ar.loc(ins),
+                      'whether a name is an address literal is not decided by the v4-then-v6 address parse alone%s: some literals (e.g. IPv6 with hex letters) are sent to the configuration as host names' % (
+                          ' (ec is also written at line %d before the test)' % other[0]['l'] if other else ''), 'make_address_v4, then make_address_v6 iff that failed; nothing else writes ec before the test')
         # host-name path: hostname_lookup dominates the append
         for ap in appends:
             run.check(q.any_precedes(ar, hl, ap), 'R4', 'hostname-consults-config', '%s<%s>' % (ar.norm, tag), ar.loc(ap), 'a host-name entry is queued without the configuration having been asked', 'hostname_lookup dominates the append')
@@ -86,6 +102,19 @@ def check(run):
             elif 'm_queue.front()' in txt or 'm_queue.begin()' in txt or 'm_queue[0]' in txt:
                 run.violation('R5', 'compounding-origin', '%s<%s>' % (ar.norm, tag), ar.loc(),
                               'the start time of a new lookup is taken from the FRONT of the queue (%s): with two or more lookups pending the third starts when the first completes, not when the second does (lookups overlap instead of compounding)' % txt)
+            elif e['k'] == 'call' and q.callee_name(e) == 'std::max' and len(e['args']) == 2 and any(q.render(ar, a).endswith('high_resolution_clock::now()') for a in e['args']) and any(q.field_name(q.strip_casts(a)) and q.field_name(q.strip_casts(a)).startswith(R + '::') and 'm_timer' not in q.render(ar, a) for a in e['args']):
+                fld = [q.field_name(q.strip_casts(a)) for a in e['args'] if q.field_name(q.strip_casts(a))][0]
+                # accepted idiom: a member that records when the resolver becomes free - it must be written with every
+                # host-name append and reset wherever the queue is emptied wholesale
+                w = q.writers_of_field(fx, fld)
+                same_block = all(any(ar.cfg.node_block(a.site) == ar.cfg.node_block(ap) for a in w.get(R + '::async_resolve', [])) for ap in appends)
+                in_cancel = R + '::cancel' in w
+                if same_block and in_cancel:
+                    run.ok('R5', 'compounding-origin', '%s<%s>' % (ar.norm, tag), ar.loc(), 'start = max(now, %s), written with every append and reset by cancel()' % fld.split('::')[-1])
+                else:
+                    run.violation('R5', 'compounding-origin', '%s<%s>' % (ar.norm, tag), ar.loc(),
+                                  'the start time comes from the member %s, which is %s: after cancel() emptied the queue the resolver still looks busy until the cancelled lookup would have completed' % (
+                                      fld.split('::')[-1], 'not written alongside every host-name append' if not same_block else 'never reset by cancel()'))
             elif 'm_timer' in txt:
                 run.violation('R5', 'compounding-origin', '%s<%s>' % (ar.norm, tag), ar.loc(),
                               'the start time is derived from m_timer (%s): the timer is armed for the FRONT entry and keeps a stale expiry after cancel(), so lookups overlap or queue behind an aborted one' % txt)
